@@ -6,6 +6,10 @@ Decided on the MIR of zcash_address, f4jumble, zcash_protocol::constants/consens
           kind and network (exception, as documented: regtest shares the testnet Base58 prefixes
           and decodes as testnet); unified containers use the zcash_protocol HRPs and
           network_hrp / hrp_network are mutual inverses; Typecode <-> u32 tables are inverse
+  NET     the ToAddress constructors of ZcashAddress store the caller's network (constant propagation
+          per NetworkType variant, through helper functions) except where the kind's prefix is the same
+          on both networks; convert hands self.net and the matching payload on; convert_if_network
+          uses the relaxed regtest/testnet comparison only for kinds sharing the prefix
   ZIP316  containers are built only by from_inner, called only by try_from_items_internal after the
           order / duplicate / P2PKH+P2SH / only-transparent rejections, each live and not
           bypassable; parse_items refuses a failed un-jumbling, an over-long HRP, padding that is
@@ -347,6 +351,184 @@ def rule_table(chk, w):
                      % (dec_t, enc_t), tf[0].span.loc())
     else:
         chk.fail("TABLE", "typecode/missing", "Typecode conversions not found")
+
+
+NT = "zcash_protocol::consensus::NetworkType"
+
+
+def net_values(w, f, v, depth=0):
+    """Constant propagation of one NetworkType parameter: with the parameter fixed to NETS[v],
+    walk the (then deterministic) CFG of f and return (list of (block, stmt) ZcashAddress / return
+    observations, env) where env maps a local to 'Main'|'Test'|'Regtest'. None when a branch on
+    something else than that parameter is met before the observation (undecided)."""
+    b = f.body
+    params = [i + 1 for i, t in enumerate(f.inputs) if t == NT]
+    if len(params) != 1 or depth > 3:
+        return None
+    env = {params[0]: NETS[v]}
+    disc = {}
+    out = []
+    bi, steps = 0, 0
+    while steps < 200:
+        steps += 1
+        blk = b.blocks[bi]
+        for s in blk.stmts:
+            if s.kind != "=" or s.place.proj:
+                continue
+            r, d = s.rv, s.place.local
+            env.pop(d, None)
+            disc.pop(d, None)
+            if r.kind == "use" and r.ops[0].kind in ("copy", "move") and not r.ops[0].place.proj:
+                src = r.ops[0].place.local
+                if src in env:
+                    env[d] = env[src]
+                if src in disc:
+                    disc[d] = disc[src]
+            elif r.kind == "agg" and r.agg[0] == "adt" and r.agg[1] == NT:
+                env[d] = r.agg[2]
+            elif r.kind == "disc" and not r.place.proj and r.place.local in env:
+                disc[d] = NETS.index(env[r.place.local])
+            elif r.kind == "agg" and r.agg[0] == "adt" and r.agg[1] == ZA + "ZcashAddress":
+                o = r.ops[0]
+                out.append(("agg", s, env.get(o.place.local) if o.kind in ("copy", "move") and
+                            not o.place.proj else None))
+        t = blk.term
+        if t.kind == "return":
+            out.append(("ret", None, env.get(0)))
+            return out
+        if t.kind == "goto":
+            bi = t.target
+        elif t.kind == "switch":
+            d = t.discr
+            if d.kind not in ("copy", "move") or d.place.proj or d.place.local not in disc:
+                return None
+            val = disc[d.place.local]
+            bi = dict(t.arms).get(val, t.otherwise)
+        elif t.kind == "call" and t.target is not None:
+            g = w.fns.get(t.callee.target_id()) if t.callee.indirect is None else None
+            if t.dest is not None and not t.dest.proj:
+                env.pop(t.dest.local, None)
+                a = [x for x in t.args if x.kind in ("copy", "move") and not x.place.proj and x.place.local in env]
+                if g is not None and g.output == NT and len(a) == 1 and len(t.args) == 1:
+                    sub = net_values(w, g, NETS.index(env[a[0].place.local]), depth + 1)
+                    rets = [x[2] for x in (sub or []) if x[0] == "ret"]
+                    if len(rets) == 1 and rets[0] is not None:
+                        env[t.dest.local] = rets[0]
+            bi = t.target
+        elif t.kind == "drop":
+            bi = t.target
+        else:
+            return None
+    return None
+
+
+def rule_net(chk, w):
+    """The network an address value carries is the caller's, except where the two networks share
+    the encoding of that kind (then the string cannot tell them apart and normalising is the
+    documented exception). A normalisation of a kind whose prefixes differ makes the value parse
+    back on another network than the one it was built for."""
+    enc = encoder_kinds(w) or {}
+    tabs = {k: (accessor_table(w, acc) if acc and acc != "unified" else None) for k, (acc, how) in enc.items()}
+    uni = accessor_table(w, "hrp_unified_address")
+    tabs["Unified"] = uni
+
+    def same_encoding(kind, a, b_):
+        t = tabs.get(kind)
+        return bool(t) and t.get(a) is not None and t.get(a) == t.get(b_)
+    ctors = [f for f in w.fns.values() if f.p.startswith("<zcash_address::ZcashAddress as zcash_address::convert::ToAddress>::from_")
+             and not f.is_closure() and f.kind == "AssocFn"]
+    if len(ctors) < 6:
+        chk.fail("NET", "ctors/missing", "expected the six ToAddress constructors of ZcashAddress, found %d" % len(ctors))
+    for f in sorted(ctors, key=lambda f: f.p):
+        du = defuse.DefUse(f.body)
+        short = f.p.rsplit("::", 1)[-1]
+        for v, net in enumerate(NETS):
+            obs = net_values(w, f, v)
+            aggs = [o for o in (obs or []) if o[0] == "agg"]
+            if len(aggs) != 1 or aggs[0][2] is None:
+                chk.fail("NET", "%s/%s/undecided" % (short, net), "cannot decide which network %s stores for "
+                         "NetworkType::%s" % (short, net), f.span.loc())
+                continue
+            ko = du.origin(aggs[0][1].rv.ops[1])
+            kind = ko[1].rsplit("::", 1)[-1] if ko[0] == "agg" else None
+            got = aggs[0][2]
+            if got == net:
+                chk.ok("NET", "%s(%s) stores the caller's network" % (short, net), sample=(v == 0))
+            elif kind and same_encoding(kind, net, got):
+                chk.ok("NET", "%s(%s) stores %s: AddressKind::%s has the same prefix %r on both (documented "
+                       "sharing)" % (short, net, got, kind, tabs[kind][net]))
+                chk.exception("NET", "%s/%s" % (short, net), "documented sharing of transparent and Sprout "
+                              "prefixes between testnet and regtest")
+            else:
+                chk.fail("NET", "%s/%s" % (short, net), "%s(%s) stores NetworkType::%s although AddressKind::%s "
+                         "is encoded differently on the two networks (%r vs %r): the value no longer parses back "
+                         "on the network it was built for" % (short, net, got, kind, (tabs.get(kind) or {}).get(net),
+                                                              (tabs.get(kind) or {}).get(got)), f.span.loc())
+    # ZcashAddress::convert hands self.net and the matching payload to the TryFromAddress method
+    kinds = [v["name"] for v in w.adts[ZA + "AddressKind"]["variants"]]
+    want = {"Sprout": "try_from_sprout", "Sapling": "try_from_sapling", "Unified": "try_from_unified",
+            "P2pkh": "try_from_transparent_p2pkh", "P2sh": "try_from_transparent_p2sh", "Tex": "try_from_tex"}
+    cv = w.by_p.get(ZA + "ZcashAddress::convert", [])
+    if len(cv) != 1:
+        chk.fail("NET", "convert/missing", "ZcashAddress::convert not found")
+    else:
+        b = cv[0].body
+        du = defuse.DefUse(b)
+        n = 0
+        for bb, t in _calls(b, r"TryFromAddress>?::try_from_\w+$"):
+            meth = t.callee.target_p().rsplit("::", 1)[-1]
+            o0 = defuse.show(du.origin(t.args[0]))
+            o1 = defuse.show(du.origin(t.args[1]))
+            m = re.search(r"as (\w+)", o1)
+            k = m.group(1) if m else None
+            if o0 == "arg0.net" and k and want.get(k) == meth:
+                n += 1
+                chk.ok("NET", "convert: AddressKind::%s -> %s(self.net, payload)" % (k, meth), sample=(n == 1))
+            else:
+                chk.fail("NET", "convert/%s" % meth, "convert calls %s with network %s and payload %s" % (meth, o0, o1),
+                         cv[0].span.loc())
+        if n < len(kinds):
+            chk.fail("NET", "convert/arms", "convert dispatches %d of %d address kinds" % (n, len(kinds)), cv[0].span.loc())
+    # convert_if_network: the relaxed (regtest ~ testnet) comparison only for kinds sharing the prefix
+    ci = w.by_p.get(ZA + "ZcashAddress::convert_if_network", [])
+    if len(ci) != 1:
+        chk.fail("NET", "convert_if_network/missing", "ZcashAddress::convert_if_network not found")
+        return
+    b = ci[0].body
+    du = defuse.DefUse(b)
+    sw = [bi for bi, blk in enumerate(b.blocks) if not blk.cleanup and blk.term.kind == "switch" and
+          du.origin(blk.term.discr) == ("disc", ("field", ("arg", 0), ".kind")) and len(blk.term.arms) >= len(kinds)]
+    if not sw:
+        chk.fail("NET", "convert_if_network/dispatch", "no dispatch on self.kind", ci[0].span.loc())
+        return
+    t = b.blocks[sw[0]].term
+    for v, tb in t.arms:
+        if not isinstance(v, int) or v >= len(kinds):
+            continue
+        kind = kinds[v]
+        # first boolean switch in the arm
+        bi, cond, hops = tb, None, 0
+        while bi is not None and hops < 6:
+            hops += 1
+            tt = b.blocks[bi].term
+            if tt.kind == "switch":
+                cond = du.origin(tt.discr)
+                break
+            bi = tt.target if tt.kind in ("goto", "drop") else None
+        strict = cond is not None and cond[0] == "call" and cond[1].endswith("PartialEq>::eq") and \
+            sorted(defuse.show(defuse.strip_refs(a)) for a in cond[2]) == ["arg0.net", "arg1"]
+        key = "convert_if_network/%s" % kind
+        if cond is None:
+            chk.fail("NET", key, "no network test before converting AddressKind::%s" % kind, ci[0].span.loc())
+        elif strict:
+            chk.ok("NET", "convert_if_network: AddressKind::%s requires self.net == net" % kind)
+        elif same_encoding(kind, "Test", "Regtest"):
+            chk.ok("NET", "convert_if_network: AddressKind::%s accepts testnet for regtest (shared prefix %r)"
+                   % (kind, tabs[kind]["Test"]))
+        else:
+            chk.fail("NET", key, "convert_if_network accepts AddressKind::%s under a relaxed network test (%s) "
+                     "although its encoding differs between testnet and regtest" % (kind, defuse.show(cond)),
+                     ci[0].span.loc())
 
 
 def rule_zip316(chk, w):
@@ -781,12 +963,14 @@ def main(tier):
     chk.trusted = ["rustc MIR", "bech32, bs58, blake2b_simd behave as documented and do not panic",
                    "reviewed panic-site arguments listed in rules/c10.py"]
     chk.rule("TABLE", "decoder tables are the inverse of the encoder tables", floor=30)
+    chk.rule("NET", "address values keep the caller's network unless the kind's encoding is shared", floor=30)
     chk.rule("ZIP316", "ZIP 316 rejections live and not bypassable; constructor discipline", floor=20)
     chk.rule("F4", "F4Jumble: same length check, reversed involutive rounds", floor=7)
     chk.rule("G", "guards of reviewed panic sites", floor=5)
     chk.rule("PF", "no undischarged class-A panic site reachable from the decoders", floor=10)
     w = zf.World(extract.facts_dir("all"), ["zcash_address", "f4jumble", "zcash_protocol", "zcash_encoding"])
     rule_table(chk, w)
+    rule_net(chk, w)
     rule_zip316(chk, w)
     rule_f4(chk, w)
     g = guards(chk, w)
